@@ -6,7 +6,8 @@ package register
 // code). Comment-only: no code; visible only with the build tag "verif".
 //
 //@ func (*Register).Post
-//@   property C01 C19 C18
+//@   property C01 C19 C18 C17
+//@   ensures[C17] no_secret_leak: secrets_clean
 //@   invariant loop#1 preserve_only: true
 //@   -- C19: nothing is created when validation fails
 //@   ensures[C19] validate_first: (emits Validate(_) -> ?errs :: errs != nil) ==>
